@@ -2366,6 +2366,7 @@ class StateEngine(object):
             field on the first Choice Rule where there is an exact match between
             the input value and a member of the comparison-operator array.
             """
+            next_state = None  # "Choices" may (illegally) be empty or missing
             for choice in choices:
                 next_state = choose(choice)
                 if next_state:
